@@ -101,6 +101,7 @@ func (s *behaviorSubjectImpl[T]) Next(value T) {
 // Implements Observer.
 func (s *behaviorSubjectImpl[T]) NextWithContext(ctx context.Context, value T) {
 	s.mu.Lock()
+	defer s.mu.Unlock() // deferred: an observer of the caller's own may panic in Next
 
 	if s.status == KindNext {
 		s.last = lo.T2(ctx, value)
@@ -108,8 +109,6 @@ func (s *behaviorSubjectImpl[T]) NextWithContext(ctx context.Context, value T) {
 	} else {
 		OnDroppedNotification(ctx, NewNotificationNext(value))
 	}
-
-	s.mu.Unlock()
 }
 
 // Implements Observer.
